@@ -29,6 +29,14 @@ Round 3 (same level as (B): observation on the real objects):
     of the objects passed to the constructor" evaluated on copies / results made in the default configuration.
 (D) `lookalike_family`: mutable option + transition tables / sets in dict / set subclasses (defaultdict,
     OrderedDict, __missing__), reads of missing rows / symbols, definition compared with the one as built.
+
+Round 4:
+(E) `methods_family` / `method_case` (harness/introspect_ops.py): every public instance method that dir() finds
+    on each class of the code under test — inherited ones included, arguments synthesised from the parameter
+    names — called on a fresh automaton under both settings of the option; afterwards the WHOLE definition
+    (input_parameters, every constructor parameter read as an attribute, definition attributes kept in the
+    instance __dict__ such as GNFA.final_states) is what it was.  Methods the hand-written tables do not list
+    also join the operations of the histories.
 """
 from __future__ import annotations
 
@@ -64,7 +72,12 @@ RULE = ("(A) cases = Python values for freeze_value (all values of nesting depth
         "copies made under m1=False in (A) are judged the same way; (D) under the option, definitions handed over in "
         "dict / set SUBCLASSES (defaultdict outer+rows / outer only, OrderedDict, dict subclasses whose __missing__ "
         "inserts / answers a default, a set subclass): every operation, query and run — words with symbols missing "
-        "from rows, states without rows, a symbol outside the alphabet — must leave the definition as built")
+        "from rows, states without rows, a symbol outside the alphabet — must leave the definition as built. Round 4: "
+        "(E) (class × public instance method DISCOVERED with dir() on the class under test, inherited ones included × "
+        "option setting × fresh definition, optional parameters filled at random): the operand's whole definition — "
+        "input_parameters, constructor parameters read as attributes, definition attributes kept in the instance "
+        "__dict__ (GNFA.final_states) — compared after the call; discovered methods outside the hand-written operation "
+        "tables are history operations too")
 ASSUMPTIONS = [
     "part (B) is MONITORED at level 'other': absence of operand mutation and of harmful aliasing is observed on sampled histories, not proved",
     "freeze_value theorems assume `supported`: every dict key and every set/frozenset element is hashable (on the model: contains no dict/set/list). This excludes nothing that exists: Python raises TypeError (unhashable type) when such a dict/set/frozenset is built. Lists inside tuples ARE covered (fix 3900daf)",
@@ -74,6 +87,9 @@ ASSUMPTIONS = [
     "show_diagram (DFA / NFA / GNFA / DPDA / NPDA) cannot be exercised here: pygraphviz / coloraide are not installed, the method raises ImportError before touching the automaton; that it leaves its operand unchanged is therefore NOT observed by the histories",
     "atoms of a definition (state names, symbols) are str / int / float / None / bytes / tuples / frozensets of these, as "
     "the generators produce them: 'immutable form' of a stored value is judged by type (atoms, tuple, frozenset, frozendict)",
+    "discovered methods are called generically when their required parameters are among input_str / other / k (all public "
+    "instance methods of the pinned code are; one that is not is counted in the evidence as not_callable_generically); "
+    "read_input / accepts_input of PDA / TM classes only when the bounded stepwise run ends",
     "an exception inside a history that is not a documented refusal (AutomatonException subclasses; NotImplementedError of GNFA readers; ValueError of DFA.random_word) is reported as a failure",
 ]
 EXPLANATION = ("Theorems C18_* prove for the model: freeze (tuples entered, fix 3900daf) leaves no mutable container in any value "
